@@ -11,7 +11,7 @@ func ProfileFull(avoid map[string]string) *Profile {
 		MaxServices: 2, MaxMethods: 3, Transport: true, BasePaths: true, OddBasePaths: true, DefaultPaths: true, Headers: true,
 		RepeatedQuery: true, QueryOnBody: true, SharedRequest: true,
 		Stratified: true, Features: Features(AllFeatures...), MultiFeature: true, AnnotatedNested: true, AnnotateAnyCard: true, MultiWordChild: true,
-		Rules: true, Examples: true, HostileText: true, LowerCaseTypes: true, Avoid: avoid}
+		Rules: true, Examples: true, HostileText: true, LowerCaseTypes: true, TrailingSlash: true, Avoid: avoid}
 }
 
 // ProfilePlain has no JSON-mapping annotations: plain proto3 JSON everywhere.
@@ -65,7 +65,7 @@ func ProfileTransport(avoid map[string]string) *Profile {
 		MaxServices: 2, MaxMethods: 3, Transport: true, BasePaths: true, OddBasePaths: true, DefaultPaths: true, QueryOnBody: true,
 		RepeatedQuery: true,
 		Stratified:    true, Features: Features("int64", "nullable", "bytes", "timestamp", "empty", "enum_number", "oneof_disc", "unwrap_root_list", "unwrap_root_map"),
-		AnnotateAnyCard: true, Avoid: avoid}
+		AnnotateAnyCard: true, TrailingSlash: true, Avoid: avoid}
 }
 
 // ProfileServerTransport is ProfileTransport for checks that drive the Go server with raw HTTP
@@ -128,12 +128,12 @@ func ProfileInterop(avoid map[string]string) *Profile {
 		Optionals: true, Repeateds: true, Enums: true, Timestamps: true, MessageFields: true,
 		MaxServices: 2, MaxMethods: 3, Transport: true, BasePaths: true, Headers: true, QueryOnBody: false,
 		Stratified: true, Features: Features("int64", "nullable", "bytes", "timestamp", "empty", "oneof_disc", "unwrap_root_list", "unwrap_root_map", "unwrap_map_value"),
-		AnnotateAnyCard: true, ContractStrict: false, TSServer: true, Avoid: avoid}
+		AnnotateAnyCard: true, ContractStrict: false, TSServer: true, TrailingSlash: true, Avoid: avoid}
 }
 
 // ProfileRoutes: verb / path / placement shapes for the agreement check (C03).
 func ProfileRoutes(avoid map[string]string) *Profile {
 	return &Profile{Name: "routes", MaxDataMessages: 1, MaxFields: 3, Optionals: true, Repeateds: true, Enums: true, MessageFields: true,
 		MaxServices: 3, MaxMethods: 4, Transport: true, BasePaths: true, OddBasePaths: true, DefaultPaths: true, QueryOnBody: true, Headers: true,
-		TSServer: true, Avoid: avoid}
+		TSServer: true, TrailingSlash: true, Avoid: avoid}
 }
